@@ -69,6 +69,7 @@ class UpdaterImpl:
         self.params = list(hdr["params"])
         self.reds = Reductions()
         self.ctor_error = None
+        self.fdt = torch.float64 if hdr.get("f64") else torch.float32     # f64: the connection lives in double precision
         red0 = hdr.get("red0", "default")
         if conn is not None:
             # an existing connection whose updater is already installed (trainers contribute to it)
@@ -78,6 +79,8 @@ class UpdaterImpl:
             delay = 2.0 if "delay" in self.params else None
             self.conn = LinearDense((n_in,), (n_out,), 1.0, synapse=DeltaCurrent.partialconstructor(100.0),
                                     bias="bias" in self.params, delay=delay)
+            if hdr.get("f64"):
+                self.conn = self.conn.double()
             for p in self.params:
                 cur = getattr(self.conn, p)
                 t = self._tensor(hdr["w0"][p], cur.shape)
@@ -103,7 +106,7 @@ class UpdaterImpl:
 
     # ---- value conversion
     def _tensor(self, vals, shape):
-        return torch.tensor([v / self.S for v in vals], dtype=torch.float32).reshape(tuple(shape))
+        return torch.tensor([v / self.S for v in vals], dtype=self.fdt).reshape(tuple(shape))
 
     def _ints(self, t):
         out = []
